@@ -255,6 +255,12 @@ func (r *Report) Finish(verifDir string, li levelInfo, seed int) int {
 	if r.Mutants != nil {
 		cov["mutants"] = r.Mutants
 	}
+	if r.Assumptions == nil {
+		r.Assumptions = []string{}
+	}
+	if r.Notes == nil {
+		r.Notes = []string{}
+	}
 	ev := map[string]interface{}{
 		"property_id": r.Prop,
 		"tier":        r.Tier,
